@@ -14,6 +14,10 @@ def fingerprint(rec, model):
     return f"{model}|{rec['transformation']}"
 
 
+DISCONTINUOUS = {"Greater", "Less", "GreaterOrEqual", "LessOrEqual", "Equal", "Floor", "Ceil", "Round", "Sign", "ArgMax", "ArgMin", "Cast",
+                 "CastLike", "Where", "If", "Mod", "TopK", "NonZero", "IsNaN", "IsInf"}
+
+
 def aggregate(run, results, pid, want_value=True, want_sides=False):
     counts, solver = {}, {"unsat": 0, "sat": 0, "unknown": 0, "queries": 0, "solver_s": 0.0}
     samples, n_pairs, n_changed, uf_models = [], 0, 0, 0
@@ -55,7 +59,12 @@ def aggregate(run, results, pid, want_value=True, want_sides=False):
                 uf_models += 1
             if want_value and rec["verdict"] == "cex":
                 rep = rec.get("replay", {})
-                if rep.get("reproduced"):
+                if rec.get("kind") == "error-behaviour" and rec.get("spec_orig_fails") and not rep.get("ort_err_a"):
+                    # the ONNX specification rejects this input for the ORIGINAL model (symbolic semantics: a shape / index
+                    # constraint of an operator is violated) but onnxruntime tolerates it (typically zero-size tensors):
+                    # the original's result is not defined, the input is outside the property's quantifier.  Counted, no verdict.
+                    counts["spec_invalid_input_tolerated_by_runtime"] = counts.get("spec_invalid_input_tolerated_by_runtime", 0) + 1
+                elif rep.get("reproduced"):
                     kf = known_match(rec, r)
                     if kf:
                         run.known(kf["text"])
@@ -71,6 +80,13 @@ def aggregate(run, results, pid, want_value=True, want_sides=False):
                     counts["cex_only_off_float_grid"] = counts.get("cex_only_off_float_grid", 0) + 1
                     run.note_inconclusive(f"{r['model']} {rec['transformation']}: the solver's counterexample is not float32-representable "
                                           f"and does not reproduce after rounding (difference confined to a rounding-sized input region)")
+                elif set(r.get("ops") or ()) & DISCONTINUOUS:
+                    # the symbolic semantics is over the reals: at a comparison / rounding / cast-to-int a difference that exists
+                    # in exact arithmetic can vanish in float32 (and the two sides then take the same branch).  Not a verdict
+                    # either way: inconclusive, counted.
+                    counts["cex_not_reproduced_discontinuity"] = counts.get("cex_not_reproduced_discontinuity", 0) + 1
+                    run.note_inconclusive(f"{r['model']} {rec['transformation']}: the exact-arithmetic counterexample does not reproduce in float32 "
+                                          f"(model has discontinuous ops {sorted(set(r.get('ops') or ()) & DISCONTINUOUS)})")
                 else:
                     run.harness_error(f"{r['model']} {rec['transformation']}: counterexample does not reproduce on onnxruntime "
                                       f"({rec.get('detail')}; replay={rep})")
